@@ -114,7 +114,7 @@ def groupsOf (c : IdxContent) (exclude : List ID) : IdxContent :=
     fun g => !g.2.isEmpty
 
 structure RwState where
-  seen : IdxContent       -- `packBlobsIDSet` (keys modelled structurally, see docs/C33.md)
+  seen : IdxContent       -- `packBlobsIDSet`: keys = (pack ID, offset-sorted blobs), the pack ID is part of the key
   newIndex : IdxContent   -- packs stored into the new index so far (all `newIndex` objects joined)
   obsolete : List ID
   kept : List IdxFile
